@@ -1,6 +1,9 @@
 package main
 
 import (
+	"go/token"
+	"go/types"
+	"golang.org/x/tools/go/ssa"
 	"fmt"
 	"os"
 	"sort"
@@ -27,6 +30,51 @@ func init() {
 		sort.Strings(lines)
 		for _, l := range lines {
 			fmt.Println(l)
+		}
+		os.Exit(0)
+	}
+}
+
+func init() {
+	if os.Getenv("LUNGOCHECK_DBG") == "sites" {
+		c, err := loadRepo("/repo", true)
+		if err != nil {
+			panic(err)
+		}
+		for _, fn := range c.repoFuncs() {
+			allInstrs(fn, func(in ssa.Instruction) {
+				switch x := in.(type) {
+				case *ssa.TypeAssert:
+					if !x.CommaOk {
+						fmt.Printf("ASSERT %s %s .(%s) X=%s\n", c.pos(x.Pos()), funcName(fn), typeKey(x.AssertedType), x.X.String())
+					}
+				case *ssa.BinOp:
+					if x.Op == token.QUO || x.Op == token.REM {
+						if _, isC := x.Y.(*ssa.Const); !isC {
+							if b, ok := x.X.Type().Underlying().(*types.Basic); ok && b.Info()&types.IsInteger != 0 {
+								fmt.Printf("DIV %s %s %s\n", c.pos(x.Pos()), funcName(fn), x.String())
+							}
+						}
+					}
+					if x.Op == token.EQL || x.Op == token.NEQ {
+						_, i1 := x.X.Type().Underlying().(*types.Interface)
+						_, i2 := x.Y.Type().Underlying().(*types.Interface)
+						if i1 && i2 && !isNilConst(x.X) && !isNilConst(x.Y) {
+							fmt.Printf("IFACEEQ %s %s %s | %s | %s\n", c.pos(x.Pos()), funcName(fn), x.String(), x.X.String(), x.Y.String())
+						}
+					}
+				case *ssa.MakeSlice:
+					fmt.Printf("MAKESLICE %s %s len=%s cap=%s\n", c.pos(x.Pos()), funcName(fn), x.Len.String(), x.Cap.String())
+				case *ssa.MakeMap:
+					if x.Reserve != nil {
+						fmt.Printf("MAKEMAP %s %s res=%s\n", c.pos(x.Pos()), funcName(fn), x.Reserve.String())
+					}
+				case *ssa.Panic:
+					fmt.Printf("PANIC %s %s %s\n", c.pos(x.Pos()), funcName(fn), x.X.String())
+				case *ssa.Slice:
+					fmt.Printf("SLICE %s %s %s\n", c.pos(x.Pos()), funcName(fn), x.String())
+				}
+			})
 		}
 		os.Exit(0)
 	}
